@@ -3,8 +3,13 @@
 //! deviations* ("at step s run task t"), which is what gets minimised and replayed.
 //!
 //! Default policy: keep running the current task while it is runnable and has not asked to
-//! yield; otherwise run the runnable task with the lowest id other than the current one (the
-//! current one only if it is the only runnable task).
+//! yield; otherwise run, among the runnable tasks other than the current one, the one that has not
+//! run for the longest time (ties: lowest id) - a spin-wait (`try_lock` / `yield_now` loops in
+//! sentinel-core) therefore cannot starve the task it is waiting for, whatever the number of
+//! spinners. (The first version of this rule took the lowest id, under which two spinning tasks
+//! could hand the processor to each other for ever while the lock holder had a higher id: a
+//! step-bound verdict that was an artefact of the scheduler, see DESIGN §10.3.) The current task is
+//! chosen again only if it is the only runnable one.
 
 use crate::rng::Rng;
 use serde::{Deserialize, Serialize};
@@ -21,8 +26,14 @@ pub enum SchedSpec {
     Pct { seed: u64, depth: u32, horizon: u32 },
     /// default policy plus `k` preemptions at uniformly drawn decision points below `horizon`
     Sparse { seed: u64, k: u32, horizon: u32 },
-    /// default policy plus the listed deviations (step, task id): the replay / minimisation form
-    Scripted { dev: Vec<(u32, u32)> },
+    /// default policy plus the listed deviations (step, task id): the replay / minimisation form.
+    /// `fair`: which default policy the deviations are relative to (see `default_choice`); replay files
+    /// recorded before the fair rule existed do not carry the field and replay under the old rule
+    Scripted {
+        dev: Vec<(u32, u32)>,
+        #[serde(default)]
+        fair: bool,
+    },
 }
 
 #[derive(Default, Debug, Clone)]
@@ -46,6 +57,10 @@ pub struct SeededScheduler {
     /// (sequential set-up phases of a program do not count)
     dp: u32,
     prio: Vec<u64>,
+    /// step at which each task was last chosen (fair choice among the tasks a yielding task hands over to)
+    last_run: Vec<u32>,
+    fair: bool,
+    next_low_prio: u64,
     change_points: Vec<u32>,
     sparse_points: Vec<u32>,
     pub log: Arc<Mutex<SchedLog>>,
@@ -73,15 +88,23 @@ impl SeededScheduler {
             }
             _ => {}
         }
-        SeededScheduler { spec, rng, started: false, step: 0, dp: 0, prio: vec![], change_points, sparse_points, log }
+        let fair = !matches!(&spec, SchedSpec::Scripted { fair: false, .. });
+        SeededScheduler { spec, rng, started: false, step: 0, dp: 0, prio: vec![], last_run: vec![], fair, next_low_prio: 1 << 19, change_points, sparse_points, log }
     }
 
-    fn default_choice(runnable: &[u32], current: Option<u32>, yielding: bool) -> u32 {
+    fn default_choice(&self, runnable: &[u32], current: Option<u32>, yielding: bool) -> u32 {
         if let Some(c) = current {
             if !yielding && runnable.contains(&c) {
                 return c;
             }
-            if let Some(o) = runnable.iter().filter(|t| **t != c).min() {
+            let others = runnable.iter().filter(|t| **t != c);
+            let pick = if self.fair {
+                // longest-waiting first (a task that never ran counts as step 0), ties by id
+                others.min_by_key(|t| (self.last_run.get(**t as usize).cloned().unwrap_or(0), **t))
+            } else {
+                others.min()
+            };
+            if let Some(o) = pick {
                 return *o;
             }
             return c;
@@ -110,7 +133,7 @@ impl Scheduler for SeededScheduler {
     fn next_task(&mut self, runnable_tasks: &[&Task], current_task: Option<TaskId>, is_yielding: bool) -> Option<TaskId> {
         let runnable: Vec<u32> = runnable_tasks.iter().map(|t| usize::from(t.id()) as u32).collect();
         let current: Option<u32> = current_task.map(|t| usize::from(t) as u32);
-        let def = Self::default_choice(&runnable, current, is_yielding);
+        let def = self.default_choice(&runnable, current, is_yielding);
         let step = self.step;
         // PCT change points and sparse preemptions are placed on decision points, not raw steps
         let contested = runnable.len() > 1;
@@ -129,6 +152,14 @@ impl Scheduler for SeededScheduler {
                 pool[self.rng.below(pool.len() as u64) as usize]
             }
             SchedSpec::Pct { .. } => {
+                if is_yielding {
+                    // a task that spins must not keep its priority: it drops below everything that ran so far
+                    if let Some(c) = current {
+                        let _ = self.prio_of(c);
+                        self.next_low_prio = self.next_low_prio.saturating_sub(1).max(1);
+                        self.prio[c as usize] = self.next_low_prio;
+                    }
+                }
                 if contested && self.change_points.contains(&dp) {
                     if let Some(c) = current {
                         // demote the running task below everything else
@@ -155,7 +186,7 @@ impl Scheduler for SeededScheduler {
                     def
                 }
             }
-            SchedSpec::Scripted { dev } => match dev.iter().find(|(s, _)| *s == step) {
+            SchedSpec::Scripted { dev, .. } => match dev.iter().find(|(s, _)| *s == step) {
                 Some((_, t)) if runnable.contains(t) => *t,
                 _ => def,
             },
@@ -174,6 +205,10 @@ impl Scheduler for SeededScheduler {
             log.steps = step + 1;
             log.max_runnable = log.max_runnable.max(runnable.len() as u32);
         }
+        while self.last_run.len() <= choice as usize {
+            self.last_run.push(0);
+        }
+        self.last_run[choice as usize] = step + 1;
         self.step += 1;
         Some(TaskId::from(choice as usize))
     }
